@@ -142,6 +142,7 @@ func VH_C13_kstep() {
 	hookSawHeader := false
 	hookSawStatus := false
 	nextHook := 0
+	nest := vx.ParamInt("nest") == 1
 
 	for step := 0; step < k; step++ {
 		switch vx.Choice(5) {
@@ -201,6 +202,11 @@ func VH_C13_kstep() {
 				}
 				if rw.Status() != 0 || rw.Written() {
 					hookSawStatus = true
+				}
+				if nest {
+					// a hook registers another one while the hooks run: too late to count as "registered before the
+					// first write" (nothing is asserted about it), and never at the expense of one that was
+					rw.Before(func(ResponseWriter) {})
 				}
 			})
 		}
